@@ -1,3 +1,5 @@
+import Std.Data.String.ToNat
+import Std.Data.String.ToInt
 import L4.Basic
 /-!
 # Caddyfile → JSON adaptation of the layer4 app (C15)
@@ -57,16 +59,15 @@ inductive Val
 abbrev M := String → Option Val
 def M.set (m : M) (k : String) (v : Val) : M := fun j => if j = k then some v else m j
 
-def parseNat? (s : String) : Option Nat := if s.isEmpty then none else s.toNat?
+def parseNat? (s : String) : Option Nat := s.toNat?
 
-def parseInt? (s : String) : Option Int :=
-  if s.startsWith "-" then (parseNat? (s.drop 1).toString).map fun n => -(n : Int)
-  else (parseNat? s).map fun n => (n : Int)
+/-- `strconv.Atoi` on the forms the generators use: an optional minus sign and decimal digits -/
+def parseInt? (s : String) : Option Int := s.toInt?
 
 /-- `caddy.ParseDuration` on the simple form `<digits><unit>` the generators use -/
 def parseDur? (s : String) : Option Int :=
-  let digits := (s.takeWhile Char.isDigit).toString
-  let unit := (s.dropWhile Char.isDigit).toString
+  let digits := String.ofList (s.toList.takeWhile Char.isDigit)
+  let unit := String.ofList (s.toList.dropWhile Char.isDigit)
   match parseNat? digits with
   | none => none
   | some n =>
@@ -133,9 +134,9 @@ def tableJSON (schema : List Opt) (m : M) : List (String × JV) :=
   schema.filterMap fun o => (m o.name).bind fun v => (valJSON v).map fun j => (o.key, j)
 
 /-! rendering option values back into a block (the documented syntax) -/
-def showInt (i : Int) : String := if i < 0 then s!"-{(-i).toNat}" else s!"{i.toNat}"
+def showInt (i : Int) : String := i.repr
 
-def showDur (ns : Int) : String := s!"{ns.toNat}ns"
+def showDur (ns : Int) : String := ns.toNat.repr ++ "ns"
 
 def renderVal (k : String) : Val → (String × List String)
   | .s v => (k, [v])
